@@ -211,7 +211,7 @@ def spec_rhs(A_of, fn_lhs, spec):
 
 
 def smt_custom(oid, function, clause, body, kind='required', budget=120, tiers=('quick', 'thorough'), assumes=(),
-               timeout=60, cut_targets=(), abstract_minmax=False, backend='smt', abstract=False):
+               timeout=60, cut_targets=(), abstract_minmax=False, backend='smt', abstract=False, split_first=False):
   """body(A) -> (pre, goal) or (pre, goal, replay) with replay(witness) -> dict(reproduced=..., ...).
   `goal` may be a list of z3 formulas (conjunction)."""
   def run():
@@ -224,7 +224,7 @@ def smt_custom(oid, function, clause, body, kind='required', budget=120, tiers=(
       pre, goal = out[0], out[1]
       rep = out[2] if len(out) > 2 else None
       ti = time.time() - t0
-      r = smt_prove(A, pre, goal, timeout_s=timeout, seed=seed(), abstract=abstract)
+      r = smt_prove(A, pre, goal, timeout_s=timeout, seed=seed(), abstract=abstract, split_first=split_first)
       r.stats['interp_s'] = round(ti, 3)
     if r.verdict == REFUTED:          # native replay with the cuts removed
       if rep is not None:
